@@ -1,5 +1,5 @@
 """Sidecar: contracts on the real functions of /repo, keyed by file::qualname.  Nothing here edits /repo."""
-MODULES=['bits_reg']
+MODULES=['bits_reg','dsl']
 
 def rtl_specs():
   from . import rtl_arb, rtl_queues, rtl_cksum
@@ -13,7 +13,7 @@ def rtl_extra(prop,tier,seed,repo,reg,known):
   return run_specs([sp for sp in rtl_specs() if prop in sp.prop_ids],tier,repo)
 
 
-FIX_COMMITS=['052e08e','9c79cb1']
+FIX_COMMITS=['052e08e','9c79cb1','dce12fb','1afafb3']
 
 PROPERTIES={
  'C04': dict(level='proof',
@@ -44,4 +44,10 @@ PROPERTIES={
    note="Not covered: ProcFL/ProcCL/ProcRTL against the ISA (a pipelined-processor refinement proof over greenlet-based FL code is out of reach of this tool set, DESIGN.md section 6 C20); ChecksumCL's method-level scheduling (its block calls the FL function, which is under contract). Trusted: as C17/C19.",
    extra=['contracts:rtl_extra'], require_cover=False,
    assumptions=["the sender respects recv.rdy (en only when rdy)"]),
+ 'C15': dict(level='proof',
+   claim="Scoped proof: for the _uncollect_vars override of every ComponentLevel (the method replace_component/delete_component use to forget a removed component) and arbitrary (symbolic, unbounded) metadata collections, every all_* collection of the top (update blocks and their host map, U-U constraints, update_ff, RD-U and WR-U constraints, read/write/call maps, update_once blocks, method constraints) loses exactly the removed component's contribution and nothing else (frame), for every iteration order of the sets/dicts involved. The most derived override answers for all levels, so a level that collects but does not uncollect is a failed obligation.",
+   note="Not covered: equality with a from-scratch build, nets/writers, simulation equality, Component._delete_component/_add_component themselves (nested closures with repr/eval: out of reach; see DESIGN.md). Collections are modelled as SMT arrays over an algebraic object sort; loops over sets/dicts are proved for an arbitrary unseen element against sidecar invariants.",
+   require_cover=False,
+   assumptions=["the removed component's update blocks are keys of the top's host/read/write/call maps (it was collected before) - precondition of the del statements",
+                "set/dict/defaultdict operations of CPython behave as the array model of pyvc/symcoll.py"]),
 }
